@@ -221,6 +221,7 @@ def main():
     if a.replay:
         sys.exit(cmd_replay(prop, a.replay))
     seed = int(os.environ.get("VERIF_SEED", "0") or 0)
+    lrv.install_signal_handlers()
     t0 = time.time()
     files, allh = lrv.discover()
     hs = [h for h in allh if prop in h.props and (tier == "thorough" or h.tier == "quick")]
@@ -268,6 +269,20 @@ def main():
                     solver_time += r["time"] or 0.0
                 if verdict == "violated":
                     real = [c for c in r["failed"] if "unwinding assertion" not in c["desc"]]
+                    # assertions tagged "Cxx:" / "Cxx/Cyy:" belong to those properties only; untagged
+                    # failures (panics, overflow, index checks) count for every property of the harness
+                    def mine(c):
+                        m = re.match(r"^((?:C\d\d/?)+):", c["desc"])
+                        return (not m) or (prop in m.group(1).split("/"))
+                    other = [c for c in real if not mine(c)]
+                    real = [c for c in real if mine(c)]
+                    if other:
+                        entry["other_property_failures"] = sorted(set(c["desc"] for c in other))
+                    if not real:
+                        entry["verdict"] = "held"
+                        entry["reason"] = "assertions of this property hold (assertions tagged for other properties fail, see other_property_failures)"
+                        hres.append(entry)
+                        continue
                     unknown = []
                     for c in real:
                         e = lrv.match_known(known, prop, h.id, c)
